@@ -58,7 +58,7 @@ type Meta struct {
 
 type fdef struct{ name, typ string }
 
-var dFields = []fdef{{"A", "string"}, {"B", "int"}, {"C", "string"}, {"D", "string"}, {"N", "Nest"}, {"P", "*Nest"}, {"Base", ""}, {"Q", "int"}, {"R", "string"}, {"L", "[]string"}, {"M", "map[string]string"}, {"G", "int"}, {"L2", "[]int64"}, {"H", "int"}, {"HS", "string"}}
+var dFields = []fdef{{"A", "string"}, {"B", "int"}, {"C", "string"}, {"D", "string"}, {"N", "Nest"}, {"P", "*Nest"}, {"Base", ""}, {"Q", "int"}, {"R", "string"}, {"L", "[]string"}, {"M", "map[string]string"}, {"G", "int"}, {"L2", "[]int64"}, {"H", "int"}, {"HS", "string"}, {"HV", "string"}}
 var sFields = []fdef{{"A", "int"}, {"B", "int"}, {"C", "string"}, {"D", "int"}, {"N", "Nest"}, {"P", "*Nest"}, {"Base", ""}, {"Q", "int"}, {"R", "string"}, {"L", "[]int"}, {"M", "map[string]int"}, {"L2", "[]int"}, {"PP", "*Nest"}}
 
 func structText(name string, fs []fdef, pkgPrefix string) string {
@@ -161,7 +161,9 @@ var MisfitKinds = []string{"err-hook-on-noerr-method", "wrong-dst-type", "wrong-
 	// one hook named by two methods: it fits the first (by name) and not the second
 	"shared-hook-extra-count", "shared-hook-extra-type", "shared-hook-dst-type",
 	// result shapes other than nothing / error
-	"concrete-error-result", "slice-error-result", "bool-result", "error-first-of-two-results"}
+	"concrete-error-result", "slice-error-result", "bool-result", "error-first-of-two-results",
+	// a hook that takes the additional arguments variadically (judged by behaviour if accepted)
+	"variadic-extras"}
 
 // Gen builds one gensim world. kind is "normal", "noerr" or "misfit".
 func Gen(r *sim.Rng, kind string) (*sim.WorldSpec, *Meta) {
@@ -229,6 +231,8 @@ func Gen(r *sim.Rng, kind string) (*sim.WorldSpec, *Meta) {
 		{"cR", "string", "string", true},
 	}
 	ptrStubs := "func cP(v *ms.Nest) (*md.Nest, error) {\n\tif err := rt.HitE(\"cP\", \"conv\"); err != nil {\n\t\treturn nil, err\n\t}\n\tif v == nil {\n\t\treturn &md.Nest{X: \"cP-nil\"}, nil\n\t}\n\treturn &md.Nest{X: fmt.Sprint(\"cP-\", v.X), Y: v.Y, Z: v.Z}, nil\n}\n\n" +
+		"func pV(xs ...any) string {\n\trt.Hit(\"pV\", \"conv\")\n\treturn fmt.Sprint(xs...)\n}\n\n" +
+		"func cV(xs ...any) (string, error) {\n\tif err := rt.HitE(\"cV\", \"conv\"); err != nil {\n\t\treturn \"\", err\n\t}\n\treturn fmt.Sprint(xs...), nil\n}\n\n" +
 		"func pP(v *ms.Nest) *md.Nest {\n\trt.Hit(\"pP\", \"conv\")\n\tif v == nil {\n\t\treturn &md.Nest{X: \"pP-nil\"}\n\t}\n\treturn &md.Nest{X: fmt.Sprint(\"pP-\", v.X), Y: v.Y, Z: v.Z}\n}\n\n"
 
 	var setup strings.Builder
@@ -406,6 +410,20 @@ func Gen(r *sim.Rng, kind string) (*sim.WorldSpec, *Meta) {
 			f, c := pickCap(mm.RetErr, "cNX", "pNX")
 			notes = append(notes, ":conv "+f+" PP.X HS")
 			capable[f] = c
+		}
+		if slot(15) {
+			// a converter whose only parameter is variadic (...any), fed by a getter: no
+			// match today; were it ever accepted, Go forwards BOTH results of the getter
+			// into the call, so the getter's error has to be dealt with before it
+			f, c := pickCap(mm.RetErr, "cV", "pV")
+			g, gc := pickCap(mm.RetErr, "GetB()", "PlainB()")
+			notes = append(notes, ":conv "+f+" "+g+" HV")
+			capable[f] = c
+			t := "S."
+			if mm.Local {
+				t = "LS."
+			}
+			capable[t+strings.TrimSuffix(g, "()")] = gc
 		}
 		if slot(15) {
 			notes = append(notes, ":getter") // would pick up S.G() (int, error) for the field G
@@ -620,6 +638,21 @@ func Gen(r *sim.Rng, kind string) (*sim.WorldSpec, *Meta) {
 			case "extra-count-too-many":
 				mm.Extras = []string{"int"}
 				ex = ", a0 int, a1 int"
+			case "variadic-extras":
+				// rejected today (count mismatch). Should the tool ever accept variadic
+				// hooks, "fits" has to mean that the hook receives the method's additional
+				// arguments, in order: the stub records what it got
+				el := "string"
+				mm.Extras = []string{"string", "string"}
+				if r.Bool() {
+					el, mm.Extras = "ms.Extra", []string{"ms.Extra"}
+				}
+				if mm.Recv != "" {
+					notes = removeNote(notes, ":recv "+mm.Recv)
+					mm.Recv = ""
+				}
+				ex = ", rest ..." + el
+				body = fmt.Sprintf("\tvar xs []any\n\tfor _, x := range rest {\n\t\txs = append(xs, x)\n\t}\n\t_ = rt.Hook(%q, %q, false, dst, src, xs...)\n", fn, which)
 			case "dst-double-pointer":
 				d = "**" + dstT
 			case "src-slice":
@@ -796,4 +829,14 @@ func Gen(r *sim.Rng, kind string) (*sim.WorldSpec, *Meta) {
 	w.Expect = "gensim:" + meta.Kind
 	w.Name = "gensim-" + w.Digest()
 	return w, meta
+}
+
+func removeNote(notes []string, n string) []string {
+	var out []string
+	for _, x := range notes {
+		if x != n {
+			out = append(out, x)
+		}
+	}
+	return out
 }
